@@ -185,6 +185,8 @@ fn mutation() -> BoxedStrategy<Mutation> {
         2 => (0u8..3).prop_map(Mutation::UnitOrder),
         1 => (0u8..3).prop_map(Mutation::LeadingUnit),
         3 => "[0-9一二三十百千万億兆,.]{1,10}".prop_map(Mutation::Noise),
+        // a unit followed by more digits than fit under it, with or without a trailing separator (十555, / 一万50000.)
+        2 => "[1-9一二三]?[十百千万][1-9][0-9]{1,5}[,.]?".prop_map(Mutation::Noise),
     ]
     .boxed()
 }
